@@ -46,6 +46,18 @@ def oracle(r):
     return why
 
 
+def pool_oracle(r):
+    why = []
+    if not r["wait_returned"]:
+        why.append("worker-pool mode (limit %d): with all workers busy and the loop blocked handing a job over, Wait did not return within 6 s after %s"
+                   % (r["limit"], "Stop" if r["variant"] == "stop" else "cancellation"))
+    if r["leaked_goroutines"]:
+        why.append("%d goroutine(s) with scheduler frames alive 2 s after Wait: %s" % (r["leaked_goroutines"], r.get("leak_sample", "")[:300]))
+    if r["saw_done"] < r["started"]:
+        why.append("%d running job(s) did not see their context cancelled" % (r["started"] - r["saw_done"]))
+    return why
+
+
 def run_life(binp, seed, n, only=None):
     def shard(i):
         cmd = [binp, "life", str(seed), str(n), str(only if only is not None else -1), str(i), "4"]
@@ -58,7 +70,11 @@ def run_life(binp, seed, n, only=None):
         return [r for r in rows if r.get("kind") == "life"]
     with ThreadPoolExecutor(4) as ex:
         parts = list(ex.map(shard, range(4)))
+    POOL[:] = [r for p in parts for r in p if r.get("kind") == "poolstop"]
     return [r for p in parts for r in p if r.get("kind") == "life"]
+
+
+POOL = []
 
 
 MODEL_V = """From Coq Require Import ZArith List Bool.
@@ -119,6 +135,12 @@ def run(ctx):
             failures.append({"case": {"seed": r["seed"], "id": r["id"], "mode": r["mode"], "jobs": r["jobs"], "ops": r["ops"], "n": n},
                              "why": why, "failing_sequences_in_this_run": len(suspects),
                              "how": "looph life: the listed operations on one scheduler, then quiescence, Stop, Wait, goroutine profile"})
+    pool_rows = list(POOL)
+    for r in [x for x in pool_rows if pool_oracle(x)][:1]:
+        run_life(binp, ctx.seed + 5, n)
+        if any(pool_oracle(x) for x in POOL):
+            failures.append({"case": {"kind": "poolstop", "variant": r["variant"], "limit": r["limit"], "seed": ctx.seed, "n": n}, "why": pool_oracle(r),
+                             "how": "looph life (last shard): WithWorkerLimit(n), n+2 jobs blocked on their context, then Stop or cancel, Wait, goroutine profile"})
     restart_rows, rf = lc.restart_failures(binp, ctx.seed, 24 if ctx.tier == "quick" else 200)
     failures += rf
     if lc.model_available():
@@ -149,7 +171,7 @@ def run(ctx):
                 "0/yield/1ms/20ms; non-trivial = at least two effective Starts (a restart)",
         "samples": [{"mode": r["mode"], "jobs": r["jobs"], "ops": r["ops"], "observed_started": r["observed_started"]} for r in rows[:3]],
         "exhaustive": False,
-        "sequences_with_immediate_restart": len(restarts), "restart_with_old_loop_alive_trials": len(restart_rows),
+        "pool_shutdown_rounds": len(pool_rows), "sequences_with_immediate_restart": len(restarts), "restart_with_old_loop_alive_trials": len(restart_rows),
         "model_mismatches": len(mismatches), "oracle_failures": len(failures),
         "partial_runtime": "goroutine exit and the absence of executions after Wait are observed (goroutine profile filtered to go-quartz/quartz frames), not proved",
     })
@@ -165,6 +187,14 @@ def replay(ctx, path):
     obj = json.load(open(path))
     c = obj.get("case", {})
     binp = lc.looph()
+    if c.get("kind") == "poolstop":
+        run_life(binp, c.get("seed", ctx.seed), c.get("n", 60))
+        bad = [x for x in POOL if pool_oracle(x)]
+        print(json.dumps({"rounds": len(POOL), "failing": len(bad)}))
+        if bad:
+            vlib.report_violation(ctx, {"case": c, "why": pool_oracle(bad[0])})
+            return 1
+        return 0
     if c.get("kind") == "restart":
         rows, rf = lc.restart_failures(binp, c.get("seed", ctx.seed), c.get("n", 24))
         print(json.dumps({"trials": len(rows), "failing": len([r for r in rows if lc.restart_oracle(r)])}))
